@@ -64,7 +64,7 @@ def _work(items):
 
 
 def run(ctx):
-    cfgs = ["MC_Query_c15q.cfg", "MC_Query_q2.cfg"] if ctx.quick else ["MC_Query_c15t.cfg", "MC_Query_t2.cfg"]
+    cfgs = ["MC_Query_c15q.cfg", "MC_Query_q2.cfg", "MC_Query_c15f.cfg"] if ctx.quick else ["MC_Query_c15t.cfg", "MC_Query_t2.cfg", "MC_Query_c15f.cfg"]
     corpus = querycorpus.tlc_corpus(ctx, "MC_Query", cfgs)
     items = [(d, cs, querycorpus.variant_of(d, ctx.seed, ctx.quick)) for d, cs in corpus]
     tot = {"cases": 0, "runs": 0, "yperr": 0, "nontrivial": 0}
